@@ -24,7 +24,7 @@ LEVEL = "exploration"
 TECHNIQUE = ("model-based testing of operation histories: exhaustive short sequences over fixed op alphabets + Hypothesis-drawn "
              "histories, real revent run in lock-step with an independent delivery monitor")
 LEVEL_TEXT = ("Exploration by generated histories: every sequence of up to 4 (quick) / 5 (thorough) operations over three fixed "
-              "alphabets of 12-14 operations is run, plus Hypothesis-drawn histories with re-entrant handler scripts; each is judged "
+              "alphabets of 12-16 operations is run, plus Hypothesis-drawn histories with re-entrant handler scripts; each is judged "
               "by a monitor (pvf/ref/evmodel.py) restating the property: snapshot at raise time ordered by (-priority, subscription "
               "order), exactly once, halting, removal, rejection of undeclared types, error suppression, weak handlers. The event "
               "library is pure and single threaded, so dense enumeration of short histories plus random longer ones is the fitting "
@@ -43,8 +43,8 @@ ASSUMPTIONS = [
   "unsubscribe operations refer to subscriptions that were made at some point in the history (possibly already gone)",
 ]
 EXHAUSTIVE_SCOPE = {
-  "quick": "all operation sequences of length <= 4 over alphabet 'prio' (12 ops) and of length <= 3 over alphabets 'remove' and 'weak' (14 ops each), fixed handler scripts",
-  "thorough": "all operation sequences of length <= 5 over alphabet 'prio' and of length <= 4 over alphabets 'remove' and 'weak'",
+  "quick": "all operation sequences (with repetition) of length <= 4 over the three fixed alphabets 'prio' (12 ops), 'remove' (14 ops) and 'weak' (16 ops), fixed handler scripts",
+  "thorough": "all operation sequences (with repetition) of length <= 5 over the same three alphabets",
 }
 
 METHODS = ["handle", "_handle_E0", "_handle_E1", "_handle_E2", "_handle_EU", "_handle_p_E0", "_handle_p_E1", "_handle_p_EU"]
@@ -658,6 +658,7 @@ def _alphabets():
     _o(ret="false"),
   ]
   ops = [_sub(0, weak=True), _sub(0, weak=True, once=True, api="byName"), _sub(1), _sub(2), _sub(3, s=1, api="add_listener_name"),
+         _sub(0, t=1), _unsub(0, "eid"),
          _sub(0, t=2, s=1), _sub(0, t=3, api="byName"),
          {"op": "bind", "s": 0, "h": 0, "pfx": "", "weak": True, "p": 0, "api": "addListeners"},
          {"op": "bind", "s": 1, "h": 0, "pfx": "p", "weak": False, "p": 5, "api": "listenTo"},
@@ -716,13 +717,13 @@ def plan(tier):
   if tier == "quick":
     return [
       Enum("seq-prio", lambda: _enum("prio", 4), shards=16),
-      Enum("seq-remove", lambda: _enum("remove", 3), shards=8),
-      Enum("seq-weak", lambda: _enum("weak", 3), shards=8),
+      Enum("seq-remove", lambda: _enum("remove", 4), shards=16),
+      Enum("seq-weak", lambda: _enum("weak", 4), shards=16),
       Hyp("histories", lambda: _strategy(tier), examples=3000, shards=16),
     ]
   return [
     Enum("seq-prio", lambda: _enum("prio", 5), shards=16),
-    Enum("seq-remove", lambda: _enum("remove", 4), shards=16),
-    Enum("seq-weak", lambda: _enum("weak", 4), shards=16),
+    Enum("seq-remove", lambda: _enum("remove", 5), shards=16),
+    Enum("seq-weak", lambda: _enum("weak", 5), shards=16),
     Hyp("histories", lambda: _strategy(tier), examples=250000, shards=16),
   ]
